@@ -4,10 +4,10 @@ open Drv_common
 module L = Stdlib.List
 module W = Welcome
 
-let fresh () = W.empty_st [(n_of_int 1, true); (n_of_int 2, true); (n_of_int 3, true)]   (* B's key packages are last-resort packages *)
+let fresh () = W.empty_st [(n_of_int 1, true); (n_of_int 2, true); (n_of_int 3, true); (n_of_int 4, true); (n_of_int 5, true)]   (* B's key packages are last-resort packages *)
 let st = ref (fresh ())
 let inv_ids : (int, int) Hashtbl.t = Hashtbl.create 8      (* invitation index -> rumor id number *)
-let id_inv = [(10, 0); (12, 1); (13, 2); (14, 3); (15, 4); (20, 6); (27, 7)]
+let id_inv = [(10, 0); (12, 1); (13, 2); (14, 3); (15, 4); (20, 6); (27, 7); (28, 8); (29, 9)]
 let si n = string_of_int (int_of_n n)
 
 let fingerprint (res : string) : string =
